@@ -346,9 +346,70 @@ def test_determinism():
     record('same case twice -> identical history (11 harnesses)', total)
 
 
+def test_spin_and_stall():
+    """A sleep(0) spinner must not freeze the virtual clock, and must not sleep through an event it spins on;
+    a stall delays exactly the thread it names by the stated virtual time."""
+    n = 0
+    for delay in (0.0, 0.25, 3.0):
+        for setter_first in (False, True):
+            with World() as w:
+                sim = w.sim
+                flag = []
+                seen = {}
+
+                def spinner():
+                    while not flag:
+                        sim.sleep(0)
+                    seen['spinner'] = (sim.now, sim.steps)
+
+                def setter():
+                    if delay:
+                        sim.sleep(delay)
+                    flag.append(1)
+                    seen['setter'] = sim.now
+
+                def watchdog():
+                    sim.sleep(50)
+                    sim.request_abort('horizon')
+                sim.spawn(watchdog, name='watchdog', daemon=True)
+                w.run([setter, spinner] if setter_first else [spinner, setter])
+                assert sim.abort_reason is None, ('spinner did not finish', delay, sim.abort_reason)
+                assert seen['setter'] == delay and seen['spinner'][0] == delay, ('spinner woke at the wrong time', delay, seen)
+                assert seen['spinner'][1] < 200, ('spinner burned steps', seen)
+                n += 1
+    # real threads for comparison: the same program finishes (no assertion on time, only on outcome)
+    import threading
+    flag = []
+    t = threading.Thread(target=lambda: (time.sleep(0.05), flag.append(1)))
+    t.start()
+    while not flag:
+        time.sleep(0)
+    t.join()
+    n += 1
+    # stall: thread B is held for 0.5 virtual seconds before its first traced line; A is not
+    import vf.selftest.traced_probe as tp
+    for who in (0, 1):
+        with World(schedule={'mode': 'stall', 'at': [['traced_probe.py', tp.FIRST_LINE, who, 0.5]]},
+                   trace=('vf/selftest/traced_probe.py',)) as w:
+            sim = w.sim
+            out = {}
+
+            def mk(name):
+                def run():
+                    tp.probe()
+                    out[name] = sim.now
+                return run
+            w.run([mk('A'), mk('B')])
+            first, second = ('A', 'B')
+            assert out[first if who == 0 else second] == 0.5 and out[second if who == 0 else first] == 0.0, (who, out)
+            n += 1
+    record('sleep(0) spinner vs virtual clock; stall delays the named thread', n)
+
+
 def main():
     t0 = time.time()
     try:
+        test_spin_and_stall()
         test_locks()
         test_event_semaphore()
         test_queue()
